@@ -181,22 +181,30 @@ def c_atoms(tu):
         t = re.sub(r"\((?:Bucket|BTree|Sized)\*\)", "", t)
         t = t.replace("self->data[(i+1)]", "data[i+1]").replace("self->data[i+1]", "data[i+1]")
         return t
-    succ_defs_at = []
-    if succvar:
-        for x in fn.walk():
-            if x.k == "BinaryOperator" and x.v == "=" and path(x.kids[0]) == succvar:
+    def loops_of(f2):
+        out = set()
+        for lp in f2.walk():
+            if lp.k in ("ForStmt", "WhileStmt") or (lp.k == "DoStmt" and not lp.mo):
+                out |= set(id(x) for x in lp.walk())
+        return out
+
+    def defs_of_var(f2, var, loopset):
+        """(line, canonical value, inside a loop) of every definition of var in f2"""
+        out = []
+        for x in f2.walk():
+            if x.k == "BinaryOperator" and x.v == "=" and path(x.kids[0]) == var:
                 for a in arms(x.kids[1]):
-                    succ_defs_at.append((x.l, canon(a), id(x) in in_loop))
+                    out.append((x.l, canon(a), id(x) in loopset))
             elif x.k == "CallExpr" and callee(x)[0] == "fn" and callee(x)[1] in tu.funcs and \
                     callee(x)[1] != "BTree_check_inner":
-                # a helper that stores through an out-parameter bound to &succvar
+                # a helper that stores through an out-parameter bound to &var
                 h = callee(x)[1]
                 params = [p_.n for p_ in tu.params(h)]
                 sub = {}
                 outp = None
                 for pn, a in zip(params, x.kids[1:]):
                     a0 = strip(a)
-                    if a0 is not None and a0.k == "UnaryOperator" and a0.v == "&" and path(a0.kids[0]) == succvar:
+                    if a0 is not None and a0.k == "UnaryOperator" and a0.v == "&" and path(a0.kids[0]) == var:
                         outp = pn
                     else:
                         sub[pn] = canon(a)
@@ -208,8 +216,21 @@ def c_atoms(tu):
                                 t = text(y.kids[1]).replace(" ", "")
                                 for nm, rep in sub.items():
                                     t = re.sub(r"(?<![\w>.])%s\b" % re.escape(nm), rep, t)
-                                succ_defs_at.append((x.l, re.sub(r"\((?:Bucket|BTree|Sized)\*\)", "", t),
-                                                     id(x) in in_loop))
+                                out.append((x.l, re.sub(r"\((?:Bucket|BTree|Sized)\*\)", "", t), id(x) in loopset))
+        return out
+
+    def next_compared(f2):
+        """locals compared with a leaf's `next` link in f2"""
+        out = set()
+        for x in f2.walk():
+            if x.k == "BinaryOperator" and x.v in ("==", "!="):
+                l0, r0 = strip(x.kids[0]), strip(x.kids[1])
+                for m_, o_ in ((l0, r0), (r0, l0)):
+                    if m_ is not None and m_.k == "MemberExpr" and m_.n == "next" and o_ is not None and \
+                            o_.k == "DeclRefExpr" and o_.rk == "VarDecl":
+                        out.add(o_.n)
+        return out
+    succ_defs_at = defs_of_var(fn, succvar, in_loop) if succvar else []
     atoms = []
     atoms_pre = []
     bodies = [(fn, None, {})]
@@ -296,6 +317,12 @@ def c_atoms(tu):
     # loops, the variable handed to the recursion / compared with a leaf's link
     rec = rec0
     succ = set(d[1] for d in succ_defs_at if d[2])
+    # the successor a leaf's link is compared with, wherever that is done
+    for f2, _forced, _sub in bodies:
+        for v in next_compared(f2):
+            if f2 is fn and v == succvar:
+                continue
+            succ |= set(d[1] for d in defs_of_var(f2, v, loops_of(f2)) if d[2])
     succ_defs = sorted(succ)
     if rec and succvar and succ_defs == sorted(["data[i+1].child", "data[i+1].child->firstbucket", "nextbucket"]):
         atoms.append(("recurse-with-successor", rec[0].l))
